@@ -44,12 +44,17 @@ RULE = (
     "corrupt SOA serial / owner, whole difference sequence missing, rcode, question name/type, wrong base serial, "
     "backwards serial, surplus after the final SOA, constructor misuse) at every position; dns.query.inbound_xfr with "
     "scripted sockets (UDP first, UseTCP retry, ONLY, NEVER, supplied / derived / malformed query); targets plain / "
-    "versioned / B-tree zone x relativize; a fraction goes through wire format and dns.query._inbound_xfr. "
+    "versioned / B-tree zone x relativize.  Every case is rendered to wire and read back the way "
+    "dns.query._inbound_xfr reads (from_wire xfr=True, one_rr_per_rrset only for IXFR) before it reaches Inbound, and the "
+    "model reads the same wire-order records with its own parser (c13.parse ties the two); a sample is also fed as "
+    "hand-built messages and through dns.query._inbound_xfr with a scripted socket.  Surplus after the final SOA includes "
+    "copies of earlier records of the message, new rdata for an (owner, type) seen earlier in it, and copies of the SOA. "
     "A case is non-trivial if its key (stream, chunking, fault, target kind) is new"
 )
 TRUSTED_BASE = [
     "names reach the model lower-cased by the driver (the library's case-insensitive Name equality is structural equality in the model)",
-    "message parsing/rendering (dns.message, C03) maps the wire stream to the rrset lists that both sides consume",
+    "message rendering and rdata/name wire codecs (dns.message, C03/C02/C01); what from_wire does to the *order and grouping* of the answer records of a transfer message is modelled (parseAnswer) and tied",
+    "TTLs above 2^31-1 (read as 0 by from_wire) are not generated",
 ]
 ASSUMPTIONS = [
     "class is outside the Lean model (zone = set of (owner, type+covers, rdata, ttl))",
@@ -67,7 +72,7 @@ D11_SIG = "C13/process_message/error-after-commit/surplus-after-final-SOA-in-sam
 SERIAL_POOL = [0, 1, 2, 100, 2**31 - 2, 2**31 - 1, 2**31, 2**31 + 1, 2**32 - 3, 2**32 - 2, 2**32 - 1, 20240101]
 
 
-class Hang(Exception):
+class Hang(BaseException):
     pass
 
 
@@ -567,8 +572,8 @@ def eval_glue(ctx: Ctx, c: dict):
     after = full_dump(zone, w.origin)
     keys_after = w.zone_keys(zone)
     locked = getattr(zone, "_write_txn", None) is not None
-    u = "|".join(w.enc_msg(m) for m in umsgs) or "-"
-    t = "|".join(w.enc_msg(m) for m in tmsgs) or "-"
+    u = "|".join(w.enc_wire_msg(md, m) for md, m in zip(c["udp"], umsgs)) or "-"
+    t = "|".join(w.enc_wire_msg(md, m) for md, m in zip(c["tcp"], tmsgs)) or "-"
     op = (f"c13.glue o={enc_labels(w.eff.labels)} q={qenc} mode={c['mode']} N=%s Z={w.enc_keys(keys_before)} U={u} T={t}")
     op = op % w.enc_names()
     zs = "=" if keys_after == keys_before else w.enc_keys(keys_after)
